@@ -1,4 +1,5 @@
-"""C20 LEB128: correspondence of Model.Leb128 with ppci/utils/leb128.py and
+"""C20 LEB128: translation tie (T1: Gen.Py_leb128 is regenerated from ppci/utils/leb128.py on every run and
+proved equal to Model.Leb128), correspondence of Model.Leb128 with the real functions, and
 evaluation of the property on the real functions (oracle: Spec.Leb through the driver)."""
 PROP = "C20"
 LEAN_PROPS = "PpciVerif/Props/C20.lean"
@@ -7,19 +8,33 @@ LEVEL = "proof"
 LEVEL_TEXT = ("Lean theorems, for ALL integers and all byte strings: both encoders emit the unique shortest well-formed LEB128 string "
               "denoting the value (Spec.Leb.UCanonical/SCanonical), the unsigned encoder rejects every negative, both decoders return "
               "the denoted value of every well-formed encoding and stop right after it; hence decode(encode x)=x. Termination of the "
-              "loops is part of the definitions (well-founded recursion). The model is hand-written and tied to ppci/utils/leb128.py by a "
-              "differential run of the four functions on every check.")
-LEVEL_NOTE = ("trusted: Lean kernel; axioms propext/Classical.choice/Quot.sound; hand model <-> source correspondence is sampled "
-              "(exhaustive small range, 7k-bit boundaries to 2^128, random to 512 bits), not proved; bytes()/iterator protocol of CPython")
-TECHNIQUE = "Lean 4 proof by functional induction over a hand model + differential correspondence with the Python functions"
+              "loops is part of the definitions (well-founded recursion). Tie = translation + correspondence: the four functions are "
+              "translated from the source text of the checked tree to Lean (Gen.Py_leb128, fuel-indexed loops) on every run; the theorems "
+              "gen_*_eq_model prove, for every input and every fuel above |value|+1 / len(data)+1, that the regenerated functions equal the hand "
+              "model (FuelExhausted never returned = termination), and gen_*_canonical / gen_*_denotes / gen_*_roundtrip restate the property "
+              "about the regenerated functions; the hand model is additionally run differentially against the real functions on every check.")
+LEVEL_NOTE = ("trusted: Lean kernel; axioms propext/Classical.choice/Quot.sound; the T1 translator translate/py2lean.py and its stated reading "
+              "of the Python fragment (translate/SEMANTICS.md: unbounded ints, floor >>, two's-complement & |, bytes() range check, next() on an "
+              "iterator), cross-checked on every run by the differential run hand model <-> real functions (exhaustive small range, 7k-bit "
+              "boundaries to 2^128, random to 512 bits)")
+TECHNIQUE = ("Lean 4 proof by functional induction over a hand model; translation (py2lean) of the Python source to Lean on every run with "
+             "machine-checked equality regenerated definition = hand model; + differential correspondence with the Python functions")
 RULE = ("integers: [-2^16,2^16] exhaustive (thorough; quick: [-2^11,2^11]), 7k-bit boundaries ±2 up to 2^128 both signs, "
         "random 1..512-bit; byte strings: encodings with junk suffixes, non-canonical paddings, truncations. "
         "distinct = distinct (op,input); non-trivial = multi-byte encoding or error outcome")
 TRUSTED = [
-    "hand model Model.Leb128 of ppci/utils/leb128.py (Int %//128 for &0x7F/>>7), tied by differential run on every check",
+    "translate/py2lean.py (T1 translator; reading of the Python fragment in translate/SEMANTICS.md) + runtime Model.PyRt/Model.PyInt: "
+    "Gen.Py_leb128 is its output for ppci/utils/leb128.py of the checked tree",
+    "hand model Model.Leb128 (Int %//128 for &0x7F/>>7): proved equal to Gen.Py_leb128 (gen_*_eq_model) and run differentially against the real functions",
     "Spec.Leb (denotational LEB128 semantics written from DWARF/wasm text)",
 ]
 ASSUMPTIONS = ["bytes() of a list of ints in 0..255 is the identity on the list", "iterator protocol: next() raises StopIteration at end"]
+
+
+def regen(ctx):
+    """T1: translate ppci/utils/leb128.py of the checked tree into Gen/Py_leb128.lean"""
+    from . import t1
+    t1.regen(ctx, "leb128")
 
 
 def ints(ctx):
